@@ -3,12 +3,16 @@ import importlib, json, os
 
 VERIF = os.path.dirname(os.path.dirname(os.path.abspath(__file__)))
 ALL = [f"C{i:02d}" for i in range(1, 21)]
+# properties whose checks have been run end-to-end on the unchanged tree and are registered
+READY = ["C01", "C02", "C17"]
 
 
 def main():
     checks, na = [], []
     for pid in ALL:
         try:
+            if pid not in READY:
+                raise ModuleNotFoundError(pid)
             mod = importlib.import_module(f"fxmc.props.{pid}")
         except ModuleNotFoundError:
             na.append({"property_id": pid, "reason": "no bounded-exhaustive check registered yet for this property (machinery in progress); nothing is claimed"})
